@@ -86,12 +86,39 @@ func runC08(c *fw.Case) {
 	c.HashAdd("loader", c08Loader)
 	// half of the stacks read through the skip-list loader (the one that takes a comparator) are ordered DESCENDING
 	c08Cmp = skiplist.BytesComparator{}
-	if c08Loader == "skiplist" && r.Intn(2) == 0 {
-		c08Cmp = descCmp{}
-		c.Obs("stacks_ordered_by_a_descending_comparator", 1)
-		c.HashAdd("desc")
+	fold := false
+	if c08Loader == "skiplist" {
+		switch r.Intn(3) {
+		case 0:
+			c08Cmp = descCmp{}
+			c.Obs("stacks_ordered_by_a_descending_comparator", 1)
+			c.HashAdd("desc")
+		case 1:
+			// equality coarser than byte equality: the tables spell the same key in different cases
+			c08Cmp = foldCmp{}
+			fold = true
+			c.Obs("stacks_ordered_by_a_case_folding_comparator", 1)
+			c.HashAdd("fold")
+		}
 	}
 	kc := func(a, b []byte) int { return c08Cmp.Compare(a, b) }
+	// normKey maps a key to the representative under which the model files it (identity unless the comparator folds case)
+	normKey := func(k []byte) []byte {
+		if fold {
+			return asciiLower(k)
+		}
+		return k
+	}
+	nkvs := func(l []kv) []kv {
+		if !fold {
+			return l
+		}
+		out := make([]kv, len(l))
+		for i, e := range l {
+			out[i] = kv{asciiLower(e.k), e.v}
+		}
+		return out
+	}
 	nk := 3 + r.Intn(28)
 	universe := gen.AscendingKeys(r, nk, gen.Pick(r, 0, 1, 3, 4))
 	hasEmptyKey := false
@@ -102,6 +129,20 @@ func runC08(c *fw.Case) {
 	}
 	if len(universe[0]) == 0 {
 		hasEmptyKey = true
+	}
+	if fold {
+		seen := map[string]bool{}
+		var u [][]byte
+		for i, k := range universe {
+			if len(k) > 0 {
+				k = asciiLower(append(append([]byte{}, k...), byte('a'+i%26)))
+			}
+			if !seen[string(k)] {
+				seen[string(k)] = true
+				u = append(u, k)
+			}
+		}
+		universe = u
 	}
 	sort.SliceStable(universe, func(i, j int) bool { return kc(universe[i], universe[j]) < 0 })
 	nt := 1 + r.Intn(6)
@@ -137,13 +178,47 @@ func runC08(c *fw.Case) {
 					vot++
 				}
 			}
-			tables[t] = append(tables[t], kv{k, v})
+			wk := k
+			if fold && r.Intn(2) == 0 {
+				wk = asciiUpper(k) // this table spells the key differently
+			}
+			tables[t] = append(tables[t], kv{wk, v})
 			model[string(k)] = v
 			inModel[string(k)] = true
 			occ[string(k)]++
 			c.HashAdd(t, k, v, v == nil)
 		}
 		c.HashAdd("|")
+	}
+	// one byte-ordered stack in six stands on a table of the LEGACY format (a fixture of the repository: no metadata
+	// file, so it reports zero records) as its oldest member
+	var legacy sstables.SSTableReaderI
+	if rd := os.Getenv("VERIF_REPO_DIR"); rd != "" && !fold && c08Loader != "disk" {
+		if _, isBytes := c08Cmp.(skiplist.BytesComparator); isBytes && r.Intn(6) == 0 {
+			dst := filepath.Join(c.Dir, "t-legacy")
+			if copyDir(filepath.Join(rd, "sstables", "test_files", "v0_compat", "SimpleWriteHappyPathSSTable"), dst) == nil {
+				if lr, err := c08Open(dst); err == nil {
+					if it, err := lr.Scan(); err == nil {
+						if lk, err := drainSST(it, 100000); err == nil {
+							for _, e := range lk {
+								universe = append(universe, e.k)
+								if !inModel[string(e.k)] {
+									model[string(e.k)] = e.v
+									inModel[string(e.k)] = true
+								}
+								occ[string(e.k)]++
+							}
+							legacy = lr
+							c.Obs("stacks_on_a_legacy_format_table", 1)
+							c.HashAdd("legacy")
+						}
+					}
+					if legacy == nil {
+						_ = lr.Close()
+					}
+				}
+			}
+		}
 	}
 	in3 := 0
 	for _, n := range occ {
@@ -183,6 +258,9 @@ func runC08(c *fw.Case) {
 	}())
 
 	var readers []sstables.SSTableReaderI
+	if legacy != nil {
+		readers = append(readers, legacy)
+	}
 	closeAll := func() {
 		for _, rd := range readers {
 			_ = rd.Close()
@@ -220,8 +298,13 @@ func runC08(c *fw.Case) {
 	}
 	sort.Slice(probes, func(i, j int) bool { return kc(probes[i], probes[j]) < 0 })
 	for _, p := range probes {
+		if fold {
+			// point lookups go through byte-keyed bloom filters: a comparator whose equality is coarser than byte equality is
+			// only meaningful for the ordered paths (scans, merges), which group keys by the comparator
+			break
+		}
 		c.Obs("stacked_gets", 1)
-		want, ok := model[string(p)]
+		want, ok := model[string(normKey(p))]
 		has, err := super.Contains(p)
 		if err != nil || has != ok {
 			c.Violate("stack/contains"+feat, "%s: Contains(%s)=(%v,%v) want %v", desc, fw.Hex(p), has, err, ok)
@@ -254,6 +337,7 @@ func runC08(c *fw.Case) {
 			c.Violate(sigbase+"-iter-error"+feat, "%s: %s: %v", desc, what, err)
 			return false
 		}
+		got = nkvs(got)
 		if d := sameKVs(got, want); d != "" {
 			sig := sigbase + "-mismatch"
 			// discriminate: a value attributed to a different key
@@ -318,6 +402,7 @@ func runC08(c *fw.Case) {
 			}
 		}
 		wantB := rng(probes[0], nil, false)
+		gotA, gotB = nkvs(gotA), nkvs(gotB)
 		if d := sameKVs(gotA, live); d != "" {
 			c.Violate("stack/simultaneous-scans-mismatch"+feat, "%s: first of two simultaneous scans: %s", desc, d)
 			return
@@ -339,6 +424,7 @@ func runC08(c *fw.Case) {
 			c.Violate("stack/simultaneous-scans-iter-error"+feat, "%s: two full scans opened together, the later drained first: %v / %v", desc, e1, e2)
 			return
 		}
+		g1, g2 = nkvs(g1), nkvs(g2)
 		if d := sameKVs(g1, live) + sameKVs(g2, live); d != "" {
 			c.Violate("stack/simultaneous-scans-mismatch"+feat, "%s: two full scans opened together: %s", desc, d)
 			return
@@ -424,6 +510,7 @@ func runC08(c *fw.Case) {
 			c.Violate("merge/compact-output-scan/"+name+feat, "%s: %v", desc, err)
 			return
 		}
+		got = nkvs(got)
 		var gotLive []kv
 		for _, g := range got {
 			if g.v != nil {
